@@ -458,7 +458,7 @@ func (ex *Exec) evalComposite(st *State, n *ast.CompositeLit, t types.Type) Val 
 				if id, ok := kv.Key.(*ast.Ident); ok {
 					g[id.Name] = ex.evalExpr(st, kv.Value)
 				} else if bl, ok := kv.Key.(*ast.BasicLit); ok && bl.Kind == token.STRING {
-					g["key:"+strings.Trim(bl.Value, `"`)] = ex.evalExpr(st, kv.Value)
+					g["k_"+strings.Trim(bl.Value, `"`)] = ex.evalExpr(st, kv.Value)
 				} else {
 					ex.evalExpr(st, kv.Value)
 				}
@@ -806,6 +806,9 @@ func (ex *Exec) evalCall(st *State, call *ast.CallExpr) Val {
 		return &ObjV{K: &Kind{K: "obj", Name: "logger"}, ID: Zero, Ghost: map[string]Val{}}
 	}
 	f := ex.calleeOf(call)
+	if f != nil && len(ex.ct.Asserts) > 0 {
+		ex.ghostAsserts([]*State{st}, "before:"+f.Name(), call.Pos(), call)
+	}
 	if f == nil {
 		// call of a function value
 		fv := ex.evalExpr(st, call.Fun)
@@ -860,7 +863,15 @@ func (ex *Exec) evalCall(st *State, call *ast.CallExpr) Val {
 	}
 	// unknown external function: uninterpreted result, no modelled side effects
 	ex.note("unmodelled external call %s: result unconstrained, no side effects assumed", key)
-	return ex.freshResult(st, sig, shortName(key))
+	ex.nullableResults = true
+	res := ex.freshResult(st, sig, "r."+f.Name())
+	ex.nullableResults = false
+	if tv, ok := res.(*TupleV); ok {
+		st.recordCall(f.Name(), tv.Vs)
+	} else {
+		st.recordCall(f.Name(), []Val{res})
+	}
+	return res
 }
 
 func (ex *Exec) evalRecv(st *State, x ast.Expr, recvT types.Type) Val {
@@ -975,7 +986,13 @@ func (ex *Exec) evalConversion(st *State, call *ast.CallExpr, to types.Type) Val
 		wrapped := Add(Mod(Sub(sv.T, BigLit(lo)), BigLit(m)), BigLit(lo))
 		return SV{T: Ite(inr, sv.T, wrapped)}
 	}
-	// []byte(string), string([]byte), named-type conversions: value-preserving
+	// []byte(string): an abstract byte string determined by the string
+	if sl, ok := to.Underlying().(*types.Slice); ok {
+		if sv, ok := v.(SV); ok && sv.T.Sort == SStr {
+			return &SliceV{Elem: kindOf(sl.Elem()), Len: App("str.len", SInt, sv.T), Arr: App("str.bytes", SArrInt, sv.T), Tag: newTag()}
+		}
+	}
+	// named-type conversions: value-preserving
 	return v
 }
 
